@@ -50,7 +50,7 @@ func init() {
 		defer os.RemoveAll(root)
 		mainPath := filepath.Join(root, "main.yml")
 		os.WriteFile(mainPath, []byte("- command: git status\n  description: show the working tree status\n  keywords: [git, status]\n- command: ls -la\n  description: list files\n  keywords: [list, files]\n"), 0o644)
-		for it := 0; it < 400; it++ {
+		for it := 0; it < 400*scale; it++ {
 			dir := filepath.Join(root, fmt.Sprintf("n%d", it))
 			nb := filepath.Join(dir, "sub", "personal.yml")
 			var model []database.Command
